@@ -316,19 +316,21 @@ def hist_job(tag, n, seed, hist=4, **kw):
 def plan(tier, seed):
     jobs = []
     if tier == "quick":
+        # v = number of d1 keys that leave their default form (3 = full product of d1 forms)
         for ow in (False, True):
-            jobs.append(("update", "m2-l1-ow%d" % ow, update_job("c18_u21_%d" % ow, mention=2, maxlist=1, ow=(ow,))))
-            jobs.append(("update", "m1-l2-ow%d" % ow, update_job("c18_u12_%d" % ow, mention=1, maxlist=2, ow=(ow,))))
+            jobs.append(("update", "m2-l1-v1-ow%d" % ow, update_job("c18_u21_%d" % ow, mention=2, maxlist=1, vary=1, ow=(ow,))))
+        jobs.append(("update", "m1-l2-v1", update_job("c18_u12", mention=1, maxlist=2, vary=1)))
+        jobs.append(("update", "m1-l1-v3", update_job("c18_u11", mention=1, maxlist=1, vary=3)))
         jobs.append(("find", "lists3", find_job("c18_f")))
         jobs.append(("history", "h4", hist_job("c18_h", 300, seed + 1)))
     else:
         for ow in (False, True):
-            for nm in (0, 1, 2):
-                jobs.append(("update", "m2-l2-n%d-ow%d" % (nm, ow), update_job("c18_u22_%d_%d" % (nm, ow), mention=2, maxlist=2,
-                                                                             names=(nm,), ow=(ow,))))
-                jobs.append(("update", "big-m1-l2-n%d-ow%d" % (nm, ow), update_job("c18_ub12_%d_%d" % (nm, ow), big=True, mention=1,
-                                                                                 maxlist=2, names=(nm,), ow=(ow,))))
-            jobs.append(("update", "m4-l1-ow%d" % ow, update_job("c18_u41_%d" % ow, mention=4, maxlist=1, ow=(ow,))))
+            for nm in (0, 1, 2, 3):
+                jobs.append(("update", "m2-l2-v2-n%d-ow%d" % (nm, ow), update_job("c18_u22_%d_%d" % (nm, ow), mention=2, maxlist=2,
+                                                                                vary=2, names=(nm,), ow=(ow,))))
+                jobs.append(("update", "big-m1-l2-v3-n%d-ow%d" % (nm, ow), update_job("c18_ub12_%d_%d" % (nm, ow), big=True, mention=1,
+                                                                                    maxlist=2, vary=3, names=(nm,), ow=(ow,))))
+            jobs.append(("update", "m4-l1-v3-ow%d" % ow, update_job("c18_u41_%d" % ow, mention=4, maxlist=1, vary=3, ow=(ow,))))
         jobs.append(("find", "lists4", find_job("c18_f", big=True, maxlist=1)))
         for i in range(4):
             jobs.append(("history", "h5-%d" % i, hist_job("c18_h%d" % i, 2500, seed * 10 + i + 1, hist=5, big=True)))
